@@ -39,6 +39,8 @@ type Thread struct {
 	quiesced   bool
 	pendCases  []selCase
 	sleepTimer *Timer
+	lockArr    int // event number of this thread's latest arrival at a Mutex.Lock
+	arriving   bool
 }
 
 type pendKind int
@@ -416,7 +418,7 @@ func (e *Exec) enabled() []transition {
 				out = append(out, transition{t: t, caseIdx: -2})
 			}
 		case pkLock:
-			if !e.mutexLocked(p.mu) {
+			if !e.mutexLocked(p.mu) && (!e.mutexFIFO || e.firstWaiter(t, p.mu)) {
 				out = append(out, transition{t: t, caseIdx: -1})
 			}
 		case pkWait:
@@ -598,7 +600,10 @@ func (e *Exec) perform(tr transition) {
 	e.grant = nil
 	switch r {
 	case stPark:
-		panic("granted operation parked again: " + e.where())
+		if t.pend == nil || t.pend.kind != pkLock || !e.mutexFIFO {
+			panic("granted operation parked again: " + e.where())
+		}
+		t.state = tsParked // FIFO policy: the arrival at Lock was the granted step, the acquisition is the next
 	case stDone:
 		t.state = tsDone
 	}
@@ -767,6 +772,8 @@ func (e *Exec) selectOp(t *Thread, f *Frame, x *ssa.Select, granted bool) stepRe
 type lockEvent struct {
 	tid int
 	at  *term.T
+	arr int // event number of the arrival at Lock
+	seq int // event number of the acquisition
 }
 
 type syncState struct {
@@ -809,6 +816,17 @@ func (e *Exec) syncObj(p Ptr) *Object {
 		e.syncFields[k] = o
 	}
 	return o
+}
+
+// firstWaiter: under the FIFO hand-off policy (what sync.Mutex guarantees in starvation mode) a free
+// mutex goes to the goroutine that arrived at Lock first.
+func (e *Exec) firstWaiter(t *Thread, mu *Object) bool {
+	for _, o := range e.threads {
+		if o != t && o.state == tsParked && o.pend != nil && o.pend.kind == pkLock && o.pend.mu == mu && o.lockArr < t.lockArr {
+			return false
+		}
+	}
+	return true
 }
 
 func (e *Exec) mutexLocked(o *Object) bool { return e.sync(o).locked }
